@@ -23,20 +23,20 @@ type Thread struct {
 
 // Case is one concurrent program.
 type Case struct {
-	Kind    string   `json:"kind"`  // handles | btree | fwriter | smart
-	Procs   int      `json:"procs"` // GOMAXPROCS while the program runs
-	Reps    int      `json:"reps"`  // repetitions of the concurrent phase
-	Loops   int      `json:"loops,omitempty"` // btree/fwriter/smart: the op lists are cycled this many times per repetition
-	Files   []string `json:"files,omitempty"` // handles: base files readers open (op.B indexes this list)
-	IntUS   int      `json:"int_us,omitempty"`  // background interval in microseconds
-	BudUS   int      `json:"bud_us,omitempty"`  // background budget in microseconds
-	Prefill int      `json:"prefill,omitempty"` // btree: records present at start; fwriter: attributes present at start
-	Node    int      `json:"node,omitempty"`    // btree: node size
-	FileMB  int      `json:"file_mb,omitempty"` // smart: file size reported by the fake index
-	MinConf  int      `json:"min_conf,omitempty"`  // smart: selector's minimum confidence in percent
-	StableUS int      `json:"stable_us,omitempty"` // smart: selector's minimum stability period in microseconds
-	PreEnable bool   `json:"pre_enable,omitempty"` // btree: incremental mode is enabled before the goroutines start (no enable/stop race window)
-	Threads []Thread `json:"threads"`
+	Kind      string   `json:"kind"`                 // handles | btree | fwriter | smart
+	Procs     int      `json:"procs"`                // GOMAXPROCS while the program runs
+	Reps      int      `json:"reps"`                 // repetitions of the concurrent phase
+	Loops     int      `json:"loops,omitempty"`      // btree/fwriter/smart: the op lists are cycled this many times per repetition
+	Files     []string `json:"files,omitempty"`      // handles: base files readers open (op.B indexes this list)
+	IntUS     int      `json:"int_us,omitempty"`     // background interval in microseconds
+	BudUS     int      `json:"bud_us,omitempty"`     // background budget in microseconds
+	Prefill   int      `json:"prefill,omitempty"`    // btree: records present at start; fwriter: attributes present at start
+	Node      int      `json:"node,omitempty"`       // btree: node size
+	FileMB    int      `json:"file_mb,omitempty"`    // smart: file size reported by the fake index
+	MinConf   int      `json:"min_conf,omitempty"`   // smart: selector's minimum confidence in percent
+	StableUS  int      `json:"stable_us,omitempty"`  // smart: selector's minimum stability period in microseconds
+	PreEnable bool     `json:"pre_enable,omitempty"` // btree: incremental mode is enabled before the goroutines start (no enable/stop race window)
+	Threads   []Thread `json:"threads"`
 	// Expect is a replay hint only: the finding a saved case is meant to reproduce. When a program hits several
 	// open findings it decides which one the verdict names; it never turns a violation into anything else.
 	Expect string `json:"expect,omitempty"`
@@ -62,7 +62,7 @@ type Job struct {
 type Hang struct {
 	Thread int      `json:"thread"`
 	Op     string   `json:"op"`
-	Phase  string   `json:"phase"` // seq | conc | final
+	Phase  string   `json:"phase"`  // seq | conc | final
 	Frames []string `json:"frames"` // innermost library frame of every goroutine that is inside the library
 	Stacks string   `json:"stacks"`
 }
@@ -77,9 +77,6 @@ type PanicInfo struct {
 	Msg    string `json:"msg"`
 	Frame  string `json:"frame"` // innermost library frame below the panic
 	Stack  string `json:"stack"`
-	// RaceLogBytes is the size of this process's race log when the panic was caught; reports after that offset
-	// are discarded by the parent (-1: unknown).
-	RaceLogBytes int64 `json:"race_log_bytes"`
 }
 
 // Leak describes goroutines that outlived Close/Stop.
@@ -91,17 +88,21 @@ type Leak struct {
 
 // Outcome is what the child reports back.
 type Outcome struct {
-	Done       bool     `json:"done"`
-	SeqProblem string   `json:"seq_problem,omitempty"` // the sequential reference itself could not be established
-	Mismatch   []string `json:"mismatch,omitempty"`    // concurrent results that differ from the sequential ones
-	Invariant  []string `json:"invariant,omitempty"`   // violated sanity conditions (progress values, final counters)
-	Hang       *Hang    `json:"hang,omitempty"`
+	Done       bool       `json:"done"`
+	SeqProblem string     `json:"seq_problem,omitempty"` // the sequential reference itself could not be established
+	Mismatch   []string   `json:"mismatch,omitempty"`    // concurrent results that differ from the sequential ones
+	Invariant  []string   `json:"invariant,omitempty"`   // violated sanity conditions (progress values, final counters)
+	Hang       *Hang      `json:"hang,omitempty"`
 	Panic      *PanicInfo `json:"panic,omitempty"`
-	Leak       *Leak    `json:"leak,omitempty"`
-	Overlap    bool     `json:"overlap"`   // >= 2 goroutines had overlapping activity windows on the library
-	Peak       int      `json:"peak"`      // peak number of goroutines simultaneously inside a library call
-	Ticks      int64    `json:"ticks"`     // progress callbacks / fake-index callbacks from background goroutines during foreground work
-	Nondet     int      `json:"nondet"`    // ops whose sequential result differed between two sequential runs (masked)
-	OpsRun     int64    `json:"ops_run"`
-	Notes      []string `json:"notes,omitempty"`
+	Leak       *Leak      `json:"leak,omitempty"`
+	Overlap    bool       `json:"overlap"` // >= 2 goroutines had overlapping activity windows on the library
+	Peak       int        `json:"peak"`    // peak number of goroutines simultaneously inside a library call
+	Ticks      int64      `json:"ticks"`   // progress callbacks / fake-index callbacks from background goroutines during foreground work
+	Nondet     int        `json:"nondet"`  // ops whose sequential result differed between two sequential runs (masked)
+	OpsRun     int64      `json:"ops_run"`
+	Notes      []string   `json:"notes,omitempty"`
+	// RaceLogCut is the size of this process's race log when the first panic out of a sync primitive was caught
+	// (-1: none). Such a panic leaves the goroutine's race-detector state unusable (sync events stay ignored), so
+	// the parent discards every report written after that offset.
+	RaceLogCut int64 `json:"race_log_cut"`
 }
